@@ -67,7 +67,12 @@ func c05Gen(seed uint64, i int) *c05Case {
 		g := newProcGen(rng)
 		g.strVar = append([]string{}, caps...)
 		var ss []proc.Stmt
-		switch rng.Intn(6) {
+		switch rng.Intn(7) {
+		case 6:
+			// the built-ins of the match are variables of the transform too (strings there, except matchNumber)
+			b1 := gen.BuiltinWith[rng.Intn(len(gen.BuiltinWith))]
+			b2 := gen.BuiltinWith[rng.Intn(len(gen.BuiltinWith))]
+			ss = []proc.Stmt{proc.SReturn{X: proc.EBin{Op: "+", L: proc.EBin{Op: "+", L: proc.EBin{Op: "+", L: proc.EStr{V: "["}, R: proc.EVar{Name: b1}}, R: proc.EStr{V: ":"}}, R: proc.EVar{Name: b2}}}}
 		case 3:
 			// reads a name it never assigned before: must be the empty string for every match and every
 			// evaluation, whatever earlier matches or earlier `with` items did
@@ -173,7 +178,9 @@ func (cs *c05Case) expectedReplacement(m *wire.Match, total int) (string, bool) 
 			continue
 		}
 		if tr, ok := cs.trs[w.S]; ok {
-			env := proc.Env{"match": proc.Str(string(m.Val)), "matchLength": proc.Num(len(m.Val)), "matchNumber": proc.Num(m.Num)}
+			env := proc.Env{"match": proc.Str(string(m.Val)), "matchLength": proc.Num(len(m.Val)), "matchNumber": proc.Num(m.Num),
+				"value": proc.Str(string(m.Val)), "startOffset": proc.Str(strconv.Itoa(m.S)), "endOffset": proc.Str(strconv.Itoa(m.E)), "lineNumber": proc.Str(strconv.Itoa(m.L1)),
+				"columnNumber": proc.Str(strconv.Itoa(m.C1)), "totalMatches": proc.Str(strconv.Itoa(total)), "filename": proc.Str(m.File)}
 			for k, v := range vars {
 				if v != "<map>" {
 					env[k] = proc.Str(v)
@@ -220,7 +227,7 @@ func C05(r *drv.Run) {
 	if !quick(r) {
 		n = 80000
 	}
-	r.Rule = "replace commands whose `with` list mixes literal strings, captures whose value differs per match, every built-in (value, matchNumber, startOffset, endOffset, lineNumber, columnNumber, totalMatches, filename), undefined names, named-loop (map valued) names and 0..2 generated transforms reading match, matchLength and captures; texts derived from the body with >= 2 matches where possible; a third of the cases under an amount clause (skip / take / top / last). Oracle: (a) the replace run equals the find run of the same body in every field but Replacement; (b) each Replacement equals the concatenation computed from the find-run's match by the harness (transforms through the process-language reference interpreter). Non-trivial = a match whose expected replacement is non-empty and that carries >= 1 variable; distinct by (program, text)."
+	r.Rule = "replace commands whose `with` list mixes literal strings, captures whose value differs per match, every built-in (value, matchNumber, startOffset, endOffset, lineNumber, columnNumber, totalMatches, filename), undefined names, named-loop (map valued) names and 0..2 generated transforms reading match, matchLength, captures and the match's built-ins; texts derived from the body with >= 2 matches where possible; a third of the cases under an amount clause (skip / take / top / last). Oracle: (a) the replace run equals the find run of the same body in every field but Replacement; (b) each Replacement equals the concatenation computed from the find-run's match by the harness (transforms through the process-language reference interpreter). Non-trivial = a match whose expected replacement is non-empty and that carries >= 1 variable; distinct by (program, text)."
 	r.Assumptions = []string{
 		"an absent Replacement and the empty string are the same replacement (a `with` list that names nothing)",
 		"transforms whose evaluation divides by zero are not judged (known finding K1); matchNumber is not used inside transforms",
